@@ -63,3 +63,17 @@ def same_bytes(got, want) -> bool:
         if got[i] != want[i]:
             return False
     return True
+
+
+def concretize(x, lo, hi):
+    """turn a small symbolic int into a concrete one by forking on equality (no realization, no symbolic
+    indexing of containers: CrossHair turns tuple[<symbolic int>] of classes into an unsupported symbolic type)"""
+    for v in range(lo, hi + 1):
+        if x == v:
+            return v
+    raise AssertionError("value outside [%d, %d]" % (lo, hi))
+
+
+def bit(mask, i) -> bool:
+    """bit i of a (possibly symbolic) non-negative int, arithmetic only"""
+    return (mask // (2 ** i)) % 2 == 1
